@@ -26,13 +26,13 @@ def run(prog, chk):
         "components are only resolved into contours by util.decomposeCompositeGlyph; no other decomposing pen or component removal outside reviewed functions (R15.6, shared with C01 / C02)",
     ]
     chk.not_decided += ["affine arithmetic and exactness", "rendering equality itself"]
-    c01.r012(prog, chk, "R15.1")
-    r151b(prog, chk)
-    check_single_decomposer(prog, chk, "R15.6")
-    r152(prog, chk)
-    c02.r0210(prog, chk, "R15.3")
-    r154(prog, chk)
-    r155(prog, chk)
+    chk.guard(c01.r012, prog, chk, "R15.1")
+    chk.guard(r151b, prog, chk)
+    chk.guard(check_single_decomposer, prog, chk, "R15.6")
+    chk.guard(r152, prog, chk)
+    chk.guard(c02.r0210, prog, chk, "R15.3")
+    chk.guard(r154, prog, chk)
+    chk.guard(r155, prog, chk)
 
 
 # ----------------------------------------------------------------------------- decomposition is done in one place
